@@ -281,12 +281,25 @@ Inductive wev :=
 (* Subscribe s *)
 | ESubCfg (s : nat) | ESubInflight (s : nat) | ESubSend (s : nat) (ok : bool) | ESubWait (s : nat)
 | ESubCancel (s : nat) | ESubRemoveCfg (s : nat)
+| ESubBuildFail (s : nat)
+    (* sendSubscribe inside Subscribe(): buildRequest fails (a parameter cannot be marshalled) after
+       addConfiguredSub and BEFORE addInflightSub: no id allocated, nothing pending; Subscribe then removes the
+       configured subscription and returns (nil, err) like after a failed send *)
 (* Unsubscribe s; k = the handle of the CallRPC("eth_unsubscribe") it may issue *)
-| EUnsubRemove (s : nat) (k : nat) | EUnsubAfterCall (s : nat) | EUnsubClose (s : nat)
+| EUnsubRemove (s : nat) (k : nat)
+| EUnsubAfterCall (s : nat) (dec : bool)
+    (* dec = the environment's choice: did json.Unmarshal of the eth_unsubscribe result into Unsubscribe's
+       *bool succeed (waitResponse, wsbackend.go:411-415)?  true/false/null/absent decode; "", numbers, objects,
+       arrays and every non-empty string do not.  The frame alphabet only separates "non-empty string" (Some v)
+       from everything else (None), so for None the choice is the event's; for Some v it must be false. *)
+| EUnsubClose (s : nat)
 (* receive loop *)
 | EFrame (f : frame) | ERAddActive | ERDeliver | ERNotifySend | ERNotifyDrop
 (* handleReconnect *)
-| EClear | ERcDeliver (k : nat) | ERcInflight (s : nat) | ERcSend (ok : bool).
+| EClear | ERcDeliver (k : nat) | ERcInflight (s : nat) | ERcSend (ok : bool)
+| ERcBuildFail (s : nat).
+    (* sendSubscribe inside handleReconnect: buildRequest fails for s, BEFORE addInflightSub (no id allocated);
+       the hook returns the error and gives up on s and on everything still on its list *)
 
 (* ---- record updates ---- *)
 Definition set_sub (w : wstate) (s : nat) (o : sub) : wstate :=
@@ -505,6 +518,11 @@ Definition wstep (w : wstate) (e : wev) : option wstate :=
       | SWaiting _ => Some (set_spc (set_sub w s (sub_set_cancel (w_sub w s))) s SCancelled)
       | _ => None
       end
+  | ESubBuildFail s =>
+      match w_spc w s with
+      | SCfg => Some (set_spc w s SSendFailed)
+      | _ => None
+      end
   | ESubRemoveCfg s =>
       match w_spc w s with
       | SSendFailed | SCancelled => Some (set_spc (removeConfiguredSub w s) s (SDone None))
@@ -525,11 +543,18 @@ Definition wstep (w : wstate) (e : wev) : option wstate :=
           end
       | _, _ => None
       end
-  | EUnsubAfterCall s =>
+  | EUnsubAfterCall s dec =>
       match w_upc w s with
       | UCall k =>
           match w_cpc w k with
-          | CDone _ (COk _ _) => Some (set_upc w s UClosing)
+          | CDone _ (COk _ res) =>
+              (* CallRPC(ctx, &resultBool, ...): a reply that is not an error is decoded into a Go bool; when
+                 that fails CallRPC returns a ParseError, Unsubscribe returns it and does NOT close the channel *)
+              match res, dec with
+              | Some _, true => None
+              | _, true => Some (set_upc w s UClosing)
+              | _, false => Some (add_log (set_upc w s (UDone false)) (LUnsubFail s))
+              end
           | CDone _ _ => Some (add_log (set_upc w s (UDone false)) (LUnsubFail s))
           | _ => None
           end
@@ -631,6 +656,11 @@ Definition wstep (w : wstate) (e : wev) : option wstate :=
       | HSend s id ss =>
           if ok then Some (add_log (set_hpc w (hnorm [] ss)) (LSendSub id s))
           else Some (set_hpc w HIdle)
+      | _ => None
+      end
+  | ERcBuildFail s =>
+      match w_hpc w with
+      | HSubs ss => if nmem s ss then Some (set_hpc w HIdle) else None
       | _ => None
       end
   end.
